@@ -209,12 +209,62 @@ def work_dynamic(chunk, st):
         st.sample({'policy': pname, 'audited_as': 'server' if p['server_policy'] else 'client'}, cap=6)
 
 
+def work_key_material(chunk, st):
+    """the conformant peer's verdict does not depend on the VALUE of its key material: every first byte (and a 0x00 / 0xff fill) of the
+    Ed25519 public key - plain, certified, security-key - and of the CA's key, for a policy that lists all of those types"""
+    BP = runner.M['builtin_policies'].BUILTIN_POLICIES
+    for pname, first, where in chunk:
+        p = BP[pname]
+        keys = [k for k in list(p['host_keys'] or []) + list(p.get('optional_host_keys') or []) if 'ed25519' in k]
+        pk = bytes([first]) + b'\x5a' * 31 if where != 'fill' else bytes([first]) * 32
+        other = b'\x42' * 32
+        hk = {}
+        for k in keys:
+            mine = pk if where in ('key', 'fill') else other
+            ca = wire.ed25519_blob_tree(pk if where in ('ca', 'fill') else b'\x44' * 32)
+            if k == 'ssh-ed25519':
+                hk[k] = wire.ed25519_blob_tree(mine)
+            elif k == 'ssh-ed25519-cert-v01@openssh.com':
+                hk[k] = wire.ed25519_cert_tree(ca, pk=mine)
+            elif k == 'sk-ssh-ed25519@openssh.com':
+                hk[k] = wire.sk_ed25519_blob_tree(mine)
+            elif k == 'sk-ssh-ed25519-cert-v01@openssh.com':
+                hk[k] = wire.sk_ed25519_cert_tree(ca, pk=mine)
+        keys = [k for k in keys if k in hk]
+        dh = p.get('dh_modulus_sizes') or {}
+        kex = [k for k in p['kex'] if 'group-exchange' not in k]
+        for fmt in ('text', 'json'):
+            res = H.audit(P.Server(host_keys=hk, kex=kex, key=keys, enc=p['ciphers'], mac=p['macs'], banner=b'SSH-2.0-OpenSSH_9.6'), opts=['-n', '--skip-rate-test'] + (['-j'] if fmt == 'json' else []))
+            root = ('key-material', pname, first, where, fmt)
+            st.execution(res.world, outcome=('key-material', res.status, fmt), root=root, nontrivial=root, detail='light')
+            d = {'policy': pname, 'first_byte': first, 'where': where, 'fmt': fmt, 'status': res.status}
+            if res.status not in (0, 2):
+                st.violation('peer-built-from-policy:key-material:exit-%s' % res.status, dict(d, stdout=res.stdout[-300:]))
+                continue
+            if fmt == 'text':
+                fails = [(c, n, t) for c, n, lv, t in report.TextReport(res.stdout).findings() if lv == 'fail']
+            else:
+                fails = [(c, n, t) for c, n, lv, t in report.json_findings(json.loads(res.stdout)) if lv == 'fail']
+            if fails:
+                st.violation('peer-built-from-policy-shows-failure:key-material-value', dict(d, failures=fails[:5]))
+    st.sample({'key_material': [chunk[0][0], chunk[0][1], chunk[0][2]]}, cap=4)
+
+
+def key_material_tasks(tier):
+    BP = runner.M['builtin_policies'].BUILTIN_POLICIES
+    cands = sorted(n for n in BP if BP[n]['server_policy'] and 'ssh-ed25519' in (BP[n]['host_keys'] or []) and 'ssh-ed25519-cert-v01@openssh.com' in (BP[n].get('optional_host_keys') or []))
+    pols = cands[-1:] if tier == 'quick' else [cands[0], cands[len(cands) // 2], cands[-1]]
+    return [(pn, b, where) for pn in pols for where in ('key', 'ca', 'fill') for b in range(256)]
+
+
 def run(tier, seed):
     t0 = time.time()
     st = evidence.Stats()
     check_static(st)
     BP = runner.M['builtin_policies'].BUILTIN_POLICIES
     par.pmap(work_dynamic, sorted(BP), stats=st, chunk=3)
+    km = key_material_tasks(tier)
+    par.pmap(work_key_material, km, stats=st, chunk=16)
     vcases = []
     for pname in H.pick([n for n in sorted(BP) if BP[n]['server_policy']], seed, 6 if tier == 'quick' else 24):
         p = BP[pname]
@@ -239,8 +289,8 @@ def run(tier, seed):
         rule='every entry of the SSH-2 rating database (shape, version strings, notes; broken-primitive tokens %s must carry a failure); every name in '
              'HOST_KEY_TYPES, RSA_FAMILY, KEX_TO_DHGROUP, the GEX table and the DHEat tables; every algorithm of every version of every built-in policy '
              '(known to the DB, not rated fail); a peer synthesised from each of the %d built-in policies audited in text and JSON, alone and as the '
-             'second target of a -T run after a weak twin of itself' % (
-                 [b[0] for b in BROKEN], len(BP)),
+             'second target of a -T run after a weak twin of itself; %d (policy, key-material value) peers: every first byte of the Ed25519 public key / CA key / whole-key fill' % (
+                 [b[0] for b in BROKEN], len(BP), len(km)),
         assumptions=['the tables are finite: this is an exhaustive check of the current tree'],
         exhaustive=True, traces_validated=validated)
 
